@@ -3,10 +3,15 @@ import json, os, sys
 HERE = os.path.dirname(os.path.dirname(os.path.abspath(__file__)))
 sys.path[:0] = [os.path.join(os.environ.get("VERIF_REPO", "/repo"), "src"), HERE, os.path.join(HERE, ".deps")]
 from checks import c10_serialisation as m   # noqa: E402
-out = []
-for case in json.load(sys.stdin):
+variant = int(os.environ.get("VERIF_C10_VARIANT", "0"))
+cases = json.load(sys.stdin)
+idx = list(range(len(cases)))
+if variant in (2, 3):
+    idx.reverse()
+out = [None] * len(cases)
+for i in idx:
     try:
-        out.append(m.serialise_for_hashseed(case))
+        out[i] = m.serialise_for_hashseed(cases[i], variant)
     except Exception as e:  # noqa: BLE001
-        out.append({"error": f"{type(e).__name__}: {e}"})
+        out[i] = {"error": f"{type(e).__name__}: {e}"}
 json.dump(out, sys.stdout)
